@@ -6,7 +6,7 @@
     nothing else); and what [write_dir] puts on the device [read_dir] — which is all a later mount has — reads back,
     entry for entry, for the fixed root region and for cluster-chain directories. *)
 From Coq Require Import ZArith List Bool Lia FMapPositive.
-From PyFatV Require Import Base.Bytes Base.PyEnv Gen.Pure Model.Codec Model.Dir Model.FS Proofs.Session Proofs.FatCodec Proofs.Device Proofs.DirCodec Proofs.DirState Proofs.Chains Proofs.Names.
+From PyFatV Require Import Base.Bytes Base.PyEnv Gen.Pure Model.Codec Model.Dir Model.FS Proofs.Session Proofs.FatCodec Proofs.Device Proofs.DirCodec Proofs.DirState Proofs.Chains Proofs.FatState Proofs.Names.
 Import ListNotations.
 Open Scope Z_scope.
 
@@ -53,6 +53,21 @@ Theorem C03_dir_persists : forall s c es s' ch,
   write_dir s c es = Ok s' -> read_dir s' c = Ok (map canon es).
 Proof. exact write_dir_read_dir. Qed.
 Print Assumptions C03_dir_persists.
+(** the FAT half: after a flush, decoding ANY copy on the device — what a later mount does — gives back the in-memory
+    table (FAT32: with its preserved reserved bits), and nothing outside the FAT region has changed *)
+Theorem C03_fat_persists : forall s s',
+  dev_ok (s_dev s) -> fat_wf s -> 0 <= fat_start s -> 0 <= BPB_NumFATs (s_h s) ->
+  lenZ (pack_fat (ft s) (s_fat s) (s_hi s)) = fat_bytes s ->
+  fat_start s + BPB_NumFATs (s_h s) * fat_bytes s <= s_dsize s ->
+  flush_fat s = Ok s' ->
+  s_fat s' = s_fat s /\ s_hi s' = s_hi s /\
+  (forall k, 0 <= k < BPB_NumFATs (s_h s) ->
+     parse_fat (ft s) (rd s' (fat_start s + k * fat_bytes s) (fat_bytes s)) = s_fat s /\
+     (ft s = 32 -> parse32hi (rd s' (fat_start s + k * fat_bytes s) (fat_bytes s)) = s_hi s)) /\
+  (forall off len, 0 <= off -> off + len <= fat_start s \/ fat_start s + BPB_NumFATs (s_h s) * fat_bytes s <= off ->
+     rd s' off len = rd s off len).
+Proof. exact flush_fat_persists. Qed.
+Print Assumptions C03_fat_persists.
 (* C03_remount (not proved): for all histories and quiescent states, tree_of (mount (image s)) = tree_of s. *)
 
 (** the hypotheses are satisfiable: a 4113-sector FAT12 volume (64 root entries, 512-byte clusters), an entry with a
@@ -130,4 +145,23 @@ Proof.
   assert (Hc : chain ex_st 2 = ([2], true)) by (vm_compute; reflexivity).
   assert (I : Forall (inside ex_st) [2]) by (constructor; [vm_compute; split; discriminate|constructor]).
   exact (write_dir_read_dir ex_st 2 ex_many ex_grown [2] dev_ok_empty G V Hh Hes Hn Hc I ex_vol_ok E).
+Qed.
+
+(** FAT half, non-vacuity: the same volume with its full 4096-entry (12-sector) table *)
+Definition ex_fat : list Z := [4088; 4095; 4095; 5; 4095; 4095] ++ repeat 0 4090.
+Definition ex_st2 : st :=
+  mkSt ex_hdr (set_bytes_per_cluster (Gen.parse_header_geometry pf_init ex_hdr) 512) false false ex_fat [] 0
+       (PositiveMap.empty _) (4113 * 512) [] [].
+Example C03_fat_example :
+  dev_ok (s_dev ex_st2) /\ fat_wf ex_st2 /\ 0 <= fat_start ex_st2 /\ BPB_NumFATs (s_h ex_st2) = 2 /\
+  lenZ (pack_fat (ft ex_st2) (s_fat ex_st2) (s_hi ex_st2)) = fat_bytes ex_st2 /\
+  fat_start ex_st2 + BPB_NumFATs (s_h ex_st2) * fat_bytes ex_st2 <= s_dsize ex_st2 /\
+  exists s', flush_fat ex_st2 = Ok s'.
+Proof.
+  split; [apply dev_ok_empty|]. split.
+  - left. split; [reflexivity|]. unfold ent_ok. cbn [s_fat ex_st2]. unfold ex_fat. apply Forall_app. split.
+    + repeat constructor; lia.
+    + apply Forall_forall. intros x Hx. apply repeat_spec in Hx. subst x. lia.
+  - split; [vm_compute; discriminate|]. split; [reflexivity|]. split; [vm_compute; reflexivity|]. split; [vm_compute; discriminate|].
+    destruct (flush_fat ex_st2) as [s'|] eqn:E; [eexists; reflexivity|vm_compute in E; discriminate].
 Qed.
